@@ -319,21 +319,45 @@ func (g *modelGen) genRelation(t, name string, idx, maxDepth int) relDef {
 			return leaf()
 		}
 		k := g.r.Intn(100)
+		// operands of one operator are pairwise different (real models do not repeat an operand;
+		// degenerate repeats are produced only one time in 15)
+		distinct := func(n int) []*openfgav1.Userset {
+			var ch []*openfgav1.Userset
+			seen := map[string]bool{}
+			allowDup := g.r.Intn(15) == 0
+			for tries := 0; len(ch) < n && tries < 12; tries++ {
+				e := expr(depth - 1)
+				key := e.String()
+				if seen[key] && !allowDup {
+					continue
+				}
+				seen[key] = true
+				ch = append(ch, e)
+			}
+			return ch
+		}
 		switch {
 		case k < 45:
-			n := 2 + g.r.Intn(2)
-			var ch []*openfgav1.Userset
-			for i := 0; i < n; i++ {
-				ch = append(ch, expr(depth-1))
+			ch := distinct(2 + g.r.Intn(2))
+			if len(ch) < 2 {
+				return ch[0]
 			}
 			g.feat["union"] = true
 			return union(ch...)
 		case k < 75:
+			ch := distinct(2)
+			if len(ch) < 2 {
+				return ch[0]
+			}
 			g.feat["intersection"] = true
-			return intersection(expr(depth-1), expr(depth-1))
+			return intersection(ch...)
 		default:
+			ch := distinct(2)
+			if len(ch) < 2 {
+				return ch[0]
+			}
 			g.feat["exclusion"] = true
-			return difference(expr(depth-1), expr(depth-1))
+			return difference(ch[0], ch[1])
 		}
 	}
 	if idx == 0 && g.r.Intn(3) != 0 {
